@@ -161,11 +161,7 @@ def run(prop: str, tier: str) -> int:
         for ev in events:
             f.write(json.dumps(ev) + "\n")
     n = len(events)
-    r = tlc.run("Layers", "SPECIFICATION Spec\nCHECK_DEADLOCK FALSE\n", env={"TRACE_FILE": path}, timeout=3000, heap="12g")
-    v = r.verdicts()
-    judged = [t for t, cl in v.items() if "ACCEPT" in cl or "REJECT" in cl]
-    if not r.completed or len(judged) != n:
-        raise MachineryError(f"Layers: {len(judged)}/{n} judged\n" + r.diagnosis())
+    v, r = tlc.run_trace("Layers", "SPECIFICATION Spec\nCHECK_DEADLOCK FALSE\n", path, n, max_lines=4000, max_bytes=40_000_000)
     na = sum(1 for cl in v.values() if "n/a" in cl)
     heights: dict[int, int] = {}
     for t, cl in v.items():
